@@ -258,7 +258,10 @@ func serve(c net.Conn, sc *Script, j *Journal) {
 			}
 			c.Write(b)
 			if sc.RawEnd == "silent" {
-				if sc.OnFault != nil {
+				// the read deadline is armed only when the client's read can never be
+				// satisfied (fewer payload bytes than announced): after a complete response
+				// the broker goes on serving and no real-time deadline must race with that
+				if sc.OnFault != nil && int64(sc.RawPrefix) > int64(sc.RawPayload) {
 					sc.OnFault()
 				}
 				return true
